@@ -167,7 +167,7 @@ func (w *World) RunStep(st *Step) {
 		}
 	case "deliver":
 		res = w.deliver(st.D, true)
-	case "dup":
+	case "dup", "advdup": // dup: the honest network (only the retransmitted opening_tx_broadcasted); advdup: a node sends a message twice
 		res = w.deliver(st.D, false)
 	case "drop":
 		if m := w.Net.head(st.D, true); m == nil {
@@ -247,13 +247,12 @@ func (w *World) randomStep(rng *rand.Rand) Step {
 		wt int
 	}
 	var cs []cand
-	ab, ba := len(w.Net.kinds("AB")), len(w.Net.kinds("BA"))
-	for _, d := range []struct {
-		dir string
-		n   int
-	}{{"AB", ab}, {"BA", ba}} {
-		if d.n > 0 {
-			cs = append(cs, cand{Step{A: "deliver", D: d.dir}, 12}, cand{Step{A: "drop", D: d.dir}, 2}, cand{Step{A: "dup", D: d.dir}, 2})
+	for _, dir := range []string{"AB", "BA"} {
+		if ks := w.Net.kinds(dir); len(ks) > 0 {
+			cs = append(cs, cand{Step{A: "deliver", D: dir}, 12}, cand{Step{A: "drop", D: dir}, 2})
+			if ks[0] == "opening_tx_broadcasted" { // the honest network duplicates only what peerswap itself retransmits
+				cs = append(cs, cand{Step{A: "dup", D: dir}, 3})
+			}
 		}
 	}
 	minc, win, csv := uint32(3), uint32(504), uint32(1008)
